@@ -52,6 +52,8 @@ def to_model(case, obs):
     tmo = {}             # script cid -> (step issued, timeout ms)
     side = {}            # (host, stream id) -> "A" | "B"
     pairs = [(a, b) for b in range(n) for a in range(b)]
+    bg_done = {(b[1], b[2]): b[0] for b in obs.get("bg", [])}      # (host, sid) -> step it completed
+    bg_pending = {h: [] for h in range(n)}                          # issue order: (lid, sid)
 
     def healthy_matures():
         for (a, b) in pairs:
@@ -125,6 +127,16 @@ def to_model(case, obs):
                     side[(h, cmd[2])] = "B"
                     probes.append((len(evs), "res", key))
                     evs.append("Accept %d %d %d" % (h, cmd[1], cmd[2]))
+                elif nm == "accept_bg":
+                    # a task awaits accept(): it first runs when the interpreter yields at the end of
+                    # this turn, then whenever the listener's Notify wakes it
+                    side[(h, cmd[2])] = "B"
+                    known = any(c2[0] == "bind" and c2[1] == cmd[1]
+                                for st2 in case["steps"][:k + 1] for c2 in st2.get("hosts", {}).get(str(h), []))
+                    probes.append((None, "none" if known else "invalid", key))
+                    if known:
+                        bg_pending[h].append((cmd[1], cmd[2]))
+                    continue
                 elif nm == "drop_listener":
                     probes.append((len(evs), "res", key))
                     evs.append("DropListener %d %d" % (h, cmd[1]))
@@ -160,6 +172,21 @@ def to_model(case, obs):
                     problems.append("unsupported command %s" % nm)
                     continue
                 healthy_matures()
+            # which parked task the Notify wakes first is tokio's business (tasks that were woken in
+            # vain re-queue at the back): follow the implementation for the order, check the outcome
+            now = [b[2] for b in obs.get("bg", []) if b[0] == k and b[1] == h]
+            order_bg = sorted(bg_pending[h], key=lambda ls: (now.index(ls[1]) if ls[1] in now else len(now)))
+            still = []
+            for (lid, sid) in order_bg:
+                kc = bg_done.get((h, sid))
+                if kc is not None and kc < k:
+                    continue
+                probes.append((len(evs), "bg", (k, h, sid)))
+                evs.append("Accept %d %d %d" % (h, lid, sid))
+                healthy_matures()
+                if kc is None or kc > k:
+                    still.append((lid, sid))
+            bg_pending[h] = [x for x in bg_pending[h] if x in still]
             evs.append("LoopStep %d" % h)
         probes.append((len(evs), "post", k))
         evs.append("View")
@@ -223,6 +250,19 @@ def compare(case, obs, model, probes):
         if exp == "drain":
             if model[idx][0] == 3:
                 return "step %d host %d: model says the SYN queue overflows (panic), implementation did not panic" % key
+            continue
+        if exp == "bg":
+            k, h, sid = key
+            done = [b for b in obs.get("bg", []) if b[1] == h and b[2] == sid and b[0] == k]
+            want = expect_from_model(model[idx])
+            if not done:
+                if want != "pending":
+                    return "step %d host %d: the parked accept %d is not woken / does not complete, model %s" % (k, h, sid, want)
+            else:
+                g = done[0][3]
+                if not (isinstance(want, tuple) and want[0] == "acc" and isinstance(g, list) and g[0] == "ok"
+                        and canon_addr_nums(g[1]) + canon_addr_nums(g[2]) == list(want[1])):
+                    return "step %d host %d: parked accept %d completed with %s, model %s" % (k, h, sid, g, want)
             continue
         if exp == "post":
             tag, nums, nested = model[idx]
@@ -620,6 +660,122 @@ def gen_backlog(rng):
         sc.cmd(t + 4, h, ["count"])
     sc.step(t + 5)
     return normalise({"cfg": cfg, "steps": sc.steps, "flavour": "backlog"})
+
+
+def gen_parked_accepts(rng):
+    """Several tasks really await accept() on one listener (parked on its Notify) while SYNs of
+    remote connectors arrive one, two or three per step; poll-once accepts in between."""
+    n = rng.choice([2, 3])
+    cap = rng.choice([4, 5, 6])
+    cfg = base_cfg(rng, n, cap=cap)
+    sc = Script(cfg)
+    pairs = [(a, b) for b in range(n) for a in range(b)]
+    for (a, b) in pairs:
+        sc.ctl(0, ["hold", a, b])
+    srv = rng.randrange(n)
+    remote = [h for h in range(n) if h != srv]
+    sc.cmd(0, srv, ["bind", 1, "unspec", 9000])
+    nbg = rng.choice([1, 2, 2, 3])
+    sid = 100
+    for i in range(nbg):
+        sc.cmd(rng.choice([0, 0, 1, 3]), srv, ["accept_bg", 1, sid])
+        sid += 1
+    k = rng.randrange(2, min(cap - 1, 4) + 1)
+    conns = []
+    for ci in range(1, k + 1):
+        h = rng.choice(remote)
+        sc.cmd(1, h, ["connect", ci, {"h": srv}, 9000])
+        conns.append((ci, h))
+    on_link = {}
+    for ci, h in conns:
+        on_link.setdefault(h, []).append(ci)
+    t = 2
+    todo = list(conns)
+    while todo:
+        burst = rng.choice([1, 2, 2, 3])
+        # deliveries of one step: indices are positions at the start of the step
+        used = {}
+        for ci, h in todo[:burst]:
+            idx = on_link[h].index(ci) + used.get(h, 0)
+            sc.ctl(t, ["deliver", h, srv, idx])
+            on_link[h].remove(ci)
+            used[h] = used.get(h, 0) + 1
+        todo = todo[burst:]
+        if rng.random() < 0.3:
+            sc.cmd(t, srv, ["accept", 1, sid])
+            sid += 1
+        t += rng.choice([1, 2])
+    if rng.random() < 0.5:
+        sc.cmd(t, srv, ["accept_bg", 1, sid])
+        sid += 1
+    for i in range(2):
+        sc.cmd(t + 1 + i, srv, ["accept", 1, sid])
+        sid += 1
+    for ci, h in conns:
+        sc.cmd(t + 2, h, ["poll", ci])
+        sc.cmd(t + 2, h, ["try_write", ci, nonce(ci)])
+        sc.cmd(t + 4, h, ["poll", ci])
+    for (a, b) in pairs:
+        sc.ctl(t + 3, ["release", a, b])
+    for s_ in range(100, sid):
+        sc.cmd(t + 5, srv, ["read", s_, 8])
+    for h in range(n):
+        sc.cmd(t + 6, h, ["count"])
+    sc.step(t + 7)
+    return normalise({"cfg": cfg, "steps": sc.steps, "flavour": "parked-accepts"})
+
+
+def gen_partition(rng):
+    """hold -> connect -> partition (both ways, either one-way direction), before or after the SYN
+    was delivered, then hold again (which lifts the partition), new connects, polls, accepts."""
+    n = rng.choice([2, 2, 3])
+    cfg = base_cfg(rng, n, cap=rng.choice([3, 4, 5]))
+    sc = Script(cfg)
+    pairs = [(a, b) for b in range(n) for a in range(b)]
+    for (a, b) in pairs:
+        sc.ctl(0, ["hold", a, b])
+    srv = rng.randrange(n)
+    remote = [h for h in range(n) if h != srv]
+    sc.cmd(0, srv, ["bind", 1, "unspec", 9000])
+    cli = rng.choice(remote)
+    other = [h for h in remote if h != cli]
+    ci = 1
+    t = 1
+    sc.cmd(t, cli, ["connect", ci, {"h": srv}, 9000])
+    if other and rng.random() < 0.5:
+        sc.cmd(t, other[0], ["connect", 9, {"h": srv}, 9000])
+    delivered = rng.random() < 0.3
+    if delivered:
+        sc.ctl(t + 1, ["deliver", cli, srv, 0])
+    if rng.random() < 0.3:
+        sc.ctl(t + 1, ["hold", cli, srv])          # a second hold changes nothing
+    kind = rng.choice([["partition", cli, srv], ["partition", srv, cli], ["partition_oneway", cli, srv],
+                       ["partition_oneway", srv, cli]])
+    tp = t + 2
+    sc.ctl(tp, kind)
+    sc.cmd(tp, cli, ["poll", ci])
+    sc.cmd(tp + 1, cli, ["poll", ci])
+    ci2 = 2
+    sc.cmd(tp + 1, cli, ["connect", ci2, {"h": srv}, 9000])     # while partitioned
+    sc.cmd(tp + 1, srv, ["accept", 1, 100])
+    if rng.random() < 0.8:
+        sc.ctl(tp + 3, ["hold", cli, srv])
+        ci3 = 3
+        sc.cmd(tp + 3, cli, ["connect", ci3, {"h": srv}, 9000])
+        sc.ctl(tp + 4, ["deliver", cli, srv, 0])
+        sc.ctl(tp + 5, ["deliver", cli, srv, 0])
+        sc.cmd(tp + 5, srv, ["accept", 1, 101])
+        sc.cmd(tp + 6, srv, ["accept", 1, 102])
+        sc.cmd(tp + 6, cli, ["poll", ci3])
+        sc.cmd(tp + 7, cli, ["poll", ci3])
+    if other:
+        sc.ctl(tp + 4, ["deliver", other[0], srv, 0])
+        sc.cmd(tp + 6, other[0], ["poll", 9])
+    for h in range(n):
+        sc.cmd(tp + 8, h, ["count"])
+    sc.cmd(tp + 8, cli, ["poll", ci])
+    sc.step(tp + 9)
+    return normalise({"cfg": cfg, "steps": sc.steps, "flavour": "partition"})
 
 
 def gen_residue(rng):
